@@ -1,2 +1,123 @@
--- stub driver for C13: replaced when the property's model exists
-def main : IO Unit := pure ()
+import Snel.Model.Proto
+import Snel.Model.AuthRun
+open Snel Snel.Proto Snel.Auth
+
+/-! Driver for C13: one scenario per line (see `harness/src/bin/c13/main.rs` for the format). -/
+
+def strOfHex (tok : String) : Option Str := do
+  let bs ← unhex tok
+  let s ← String.fromUTF8? (ByteArray.mk bs.toArray)
+  some s.toList
+
+def hexOfStr (s : Str) : String := hexOfBytes (String.ofList s).toUTF8.toList
+
+/-- `_` = empty list, otherwise `+`-joined hex strings. -/
+def listOfTok (tok : String) : Option (List Str) :=
+  if tok == "_" then some [] else (tok.splitOn "+").mapM strOfHex
+
+/-- Stand-in for `hex(HMAC-SHA256(key, msg))` shared with the harness: four FNV-1a lanes over
+`key ‖ 0xff ‖ msg`, 64 lower-case hex digits. The harness renders the same request once with
+real HMACs (for the real gate) and once with this function (for the model). -/
+def toyMac (key msg : Str) : Str :=
+  let bytes := (String.ofList key).toUTF8.toList ++ [0xff] ++ (String.ofList msg).toUTF8.toList
+  let lane (i : Nat) : Nat :=
+    bytes.foldl (fun h b => ((h ^^^ b.toNat) * 0x100000001b3) % 2^64)
+      ((0xcbf29ce484222325 + i * 0x9e3779b97f4a7c15) % 2^64)
+  let hex16 (n : Nat) : List Char := (List.range 16).map fun k => hexDigit ((n >>> (4 * (15 - k))) % 16)
+  (List.range 4).flatMap fun i => hex16 (lane i)
+
+/-- The n-th token minted in a scenario (the real ones are random; the harness substitutes). -/
+def toyToken (n : Nat) : Str :=
+  "abcdefabcdefabcd".toList ++ (List.range 48).map fun k => hexDigit ((n >>> (4 * (47 - k))) % 16)
+
+/-- `char::is_alphanumeric` on the alphabet the generator draws from: ASCII, Latin-1 letters,
+Greek and Cyrillic capitals/smalls. -/
+def alnumU (c : Char) : Bool :=
+  let n := c.toNat
+  c.isAlphanum || (0xC0 ≤ n && n ≤ 0xFF && n != 0xD7 && n != 0xF7) ||
+  (0x391 ≤ n && n ≤ 0x3A9 && n != 0x3A2) || (0x3B1 ≤ n && n ≤ 0x3C9) || (0x410 ≤ n && n ≤ 0x44F)
+
+def parseCmd (tok : String) : Option (Option Cmd) :=
+  match tok.splitOn "/" with
+  | ["perr"] => some none
+  | ["-"] => some none   -- the real gate rejected / answered AUTH: nothing was parsed
+  | ["store", et, v] => do some (some (.store (← strOfHex et) (v == "1")))
+  | ["query", h, t] => do some (some (.query (← strOfHex h) (← listOfTok t)))
+  | ["compare", ets] => do some (some (.compare (← listOfTok ets)))
+  | ["replay", "*"] => some (some (.replay none))
+  | ["replay", et] => do some (some (.replay (some (← strOfHex et))))
+  | ["remember", n, h, t] => do some (some (.remember (← strOfHex n) (← strOfHex h) (← listOfTok t)))
+  | ["show", n] => do some (some (.show (← strOfHex n)))
+  | ["flush"] => some (some .flush)
+  | ["ping"] => some (some .ping)
+  | ["batch"] => some (some .batch)
+  | ["define", et] => do some (some (.define (← strOfHex et)))
+  | ["mkuser", id, key, roles] => do some (some (.createUser (← strOfHex id) (← strOfHex key) (← listOfTok roles)))
+  | ["revkey", id] => do some (some (.revokeKey (← strOfHex id)))
+  | ["list"] => some (some .listUsers)
+  | ["grant", ps, ets, u] => do some (some (.grant (← listOfTok ps) (← listOfTok ets) (← strOfHex u)))
+  | ["revoke", ps, ets, u] => do some (some (.revoke (← listOfTok ps) (← listOfTok ets) (← strOfHex u)))
+  | ["showperm", u] => do some (some (.showPermissions (← strOfHex u)))
+  | _ => none
+
+def parseStep (toks : List String) : Option Step :=
+  match toks with
+  | ["mk", id, key, roles] => do some (.mk (← strOfHex id) (← strOfHex key) (← listOfTok roles))
+  | ["sp", id, et, rw] =>
+    match rw.toList with
+    | [r, w] => do
+      if (r != '0' && r != '1') || (w != '0' && w != '1') then none
+      some (.setPerm (← strOfHex id) (← strOfHex et) ⟨r == '1', w == '1'⟩)
+    | _ => none
+  | ["dp", id, et] => do some (.dropPerm (← strOfHex id) (← strOfHex et))
+  | ["rk", id] => do some (.revKey (← strOfHex id))
+  | ["conn", k] => do some (.conn (← k.toNat?))
+  | ["req", k, line, d] => do some (.req (← k.toNat?) (← strOfHex line) (← parseCmd d))
+  | ["tick", d] => do some (.tick (← d.toNat?))
+  | ["restart"] => some .restart
+  | ["dir", m, uid, d] => do
+    if m != "0" && m != "1" then none
+    let u ← if uid == "~" then some none else (strOfHex uid).map some
+    match ← parseCmd d with
+    | some c => some (.direct (m == "1") u c)
+    | none => none
+  | _ => none
+
+def splitSteps (toks : List String) : List (List String) :=
+  let rec go (rest : List String) (cur : List String) (acc : List (List String)) : List (List String) :=
+    match rest with
+    | [] => (if cur.isEmpty then acc else cur.reverse :: acc).reverse
+    | ";" :: more => go more [] (if cur.isEmpty then acc else cur.reverse :: acc)
+    | t :: more => go more (t :: cur) acc
+  go toks [] []
+
+def showStatus : Status → String
+  | .s200 => "200" | .s400 => "400" | .s401 => "401" | .s403 => "403" | .s500 => "500" | .panic => "panic"
+
+def showApi : ApiResult → String
+  | .ok => "ok" | .exists_ => "exists" | .invalidId => "badid" | .idTooLong => "idlong"
+  | .keyTooLong => "keylong" | .noUser => "nouser"
+
+def showOut : Out → String
+  | .api r => showApi r
+  | .unit => "."
+  | .rejected => "R"
+  | .authOk u => s!"A.{hexOfStr u}"
+  | .passed c u none => s!"P.{hexOfStr c}.{hexOfStr u}.perr"
+  | .passed c u (some s) => s!"P.{hexOfStr c}.{hexOfStr u}.{showStatus s}"
+  | .status s => showStatus s
+
+def bit (s : String) : Option Bool := if s == "1" then some true else if s == "0" then some false else none
+
+def answer (line : String) : String :=
+  match words line with
+  | "scn" :: b :: m :: x :: schemas :: rest =>
+    match bit b, bit m, x.toNat?, listOfTok schemas, (splitSteps rest).mapM parseStep with
+    | some b, some m, some x, some schemas, some steps =>
+      let cfg : Cfg := ⟨b, m, x⟩
+      let s0 : Sys := ⟨{ State.empty with schemas := schemas }, [], 1000, 0⟩
+      " ".intercalate ((run toyMac alnumU toyToken cfg s0 steps).map showOut)
+    | _, _, _, _, _ => "bad-op"
+  | _ => "bad-op"
+
+def main : IO Unit := serve answer
